@@ -124,7 +124,15 @@ pub trait NamingContext {
     fn compute_function_name(&self, name: &str, _rename_all: &Option<RenameRule>) -> String {
         // Always use TypeScript conventions (camelCase for functions)
         // Command-level rename_all doesn't affect the function name
-        self.apply_naming_convention(name, RenameRule::CamelCase)
+        let function_name = self.apply_naming_convention(name, RenameRule::CamelCase);
+
+        // `delete`, `new`, `default`, ... are legal Rust function names but cannot name a
+        // function in a TypeScript module; such wrappers get a trailing underscore
+        if RESERVED_FUNCTION_NAMES.contains(&function_name.as_str()) {
+            format!("{}_", function_name)
+        } else {
+            function_name
+        }
     }
 
     /// Compute the TypeScript type name (PascalCase)
@@ -137,6 +145,59 @@ pub trait NamingContext {
         self.apply_naming_convention(name, RenameRule::PascalCase)
     }
 }
+
+/// Words that cannot be used as the name of a function declaration in an ES module
+/// (reserved words, strict-mode reserved words and the restricted names `eval` / `arguments`)
+const RESERVED_FUNCTION_NAMES: &[&str] = &[
+    "arguments",
+    "await",
+    "break",
+    "case",
+    "catch",
+    "class",
+    "const",
+    "continue",
+    "debugger",
+    "default",
+    "delete",
+    "do",
+    "else",
+    "enum",
+    "eval",
+    "export",
+    "extends",
+    "false",
+    "finally",
+    "for",
+    "function",
+    "if",
+    "implements",
+    "import",
+    "in",
+    "instanceof",
+    "interface",
+    "let",
+    "new",
+    "null",
+    "package",
+    "private",
+    "protected",
+    "public",
+    "return",
+    "static",
+    "super",
+    "switch",
+    "this",
+    "throw",
+    "true",
+    "try",
+    "typeof",
+    "var",
+    "void",
+    "while",
+    "with",
+    "yield",
+];
 
 /// ASCII-lowercase the first character of `name` (serde's camelCase step) without assuming
 /// that the first character is a single byte
